@@ -8,6 +8,7 @@ import Emitter.Props.C07
 #print axioms Emitter.C07.store_history_refines
 #print axioms Emitter.C07.store_history_exact
 #print axioms Emitter.C07.replay_history_exact
+#print axioms Emitter.C07.replay_history_pubs
 #print axioms Emitter.C07.unstored_never_replayed
 #print axioms Emitter.C07.replay_sublist
 #print axioms Emitter.C07.replay_zero
